@@ -517,6 +517,10 @@ func driveBurst(r *rand.Rand, w *bufio.Writer, id int, maxAtoms int, cv *coverOu
 // driveAggSparse: aggregates over 3..4 bitmaps whose chunk (bucket) keys interleave sparsely over a key range wide
 // enough that a parallel work item spans several keys: every aggregate, lists in several orders, worker counts 1..3.
 func driveAggSparse(r *rand.Rand, w *bufio.Writer, id int, bits int, maxAtoms int, cv *coverOut) {
+	if r.Intn(5) == 0 {
+		driveAggWide(r, w, id, bits, cv)
+		return
+	}
 	u, gens := sparseKeysUniverse(r, bits, maxAtoms)
 	e := newExec(u, w, id, r.Int63())
 	e.begin()
@@ -558,6 +562,67 @@ func driveAggSparse(r *rand.Rand, w *bufio.Writer, id int, bits int, maxAtoms in
 	if bits != 64 {
 		e.run(Call{Op: "Clone", Dst: 6, X: 1})
 		e.run(Call{Op: "AndAny", X: 6, Xs: []int{2, 3}})
+	}
+	cv.Traces++
+	cv.Events += e.events
+	for k, v := range e.cover {
+		cv.Ops[k] += v
+	}
+}
+
+// driveAggWide: few values spread over a WIDE key range and MANY workers: the pipelines get more work items than their
+// channels hold (chunkSpecChan max(64, 2p), chunkChan 32; inputChan 128, resultChan 32).
+func driveAggWide(r *rand.Rand, w *bufio.Writer, id int, bits int, cv *coverOut) {
+	shift := uint(16)
+	if bits == 64 {
+		shift = 32
+	}
+	width := uint64(130 + r.Intn(500))
+	k0 := uint64(r.Intn(1000))
+	ng := 2 + r.Intn(2)
+	gens := make([]iset, ng)
+	var cuts []uint64
+	for i := range gens {
+		var sps []span
+		ks := []uint64{k0, k0 + width}
+		if i > 0 {
+			ks = []uint64{k0 + uint64(r.Int63n(int64(width))), k0 + uint64(r.Int63n(int64(width)))}
+		}
+		if r.Intn(3) == 0 { // a common value in every key of a stretch: many work items for the heap pipelines
+			n := uint64(140 + r.Intn(80))
+			for k := uint64(0); k < n && k <= width; k++ {
+				ks = append(ks, k0+k)
+			}
+		}
+		for _, k := range ks {
+			sps = append(sps, span{k<<shift + 7, k<<shift + 7})
+		}
+		gens[i] = normalize(sps)
+	}
+	u, err := vennUniverse(bits, cuts, gens)
+	if err != nil {
+		panic(err)
+	}
+	u.computeShifts(nil)
+	u.Name = "aggwide"
+	e := newExec(u, w, id, r.Int63())
+	e.begin()
+	for i := range gens {
+		ga, _ := u.project(gens[i])
+		e.run(Call{Op: "Build", Dst: i + 1, As: ga, Rcp: "R"})
+	}
+	xs := []int{}
+	for i := range gens {
+		xs = append(xs, i+1)
+	}
+	ops := []string{"ParOr", "ParHeapOr", "ParAnd"}
+	if bits == 64 {
+		ops = []string{"ParOr"}
+	}
+	for _, op := range ops {
+		for _, p := range []int{pick(r, []int{33, 40, 64}), pick(r, []int{100, 150, 1, 2})} {
+			e.run(Call{Op: op, Dst: 5, Xs: xs, W: p})
+		}
 	}
 	cv.Traces++
 	cv.Events += e.events
